@@ -9,6 +9,7 @@
 //                                  z (reset) m (mode(load_from_archive))
 //   load2 <ty> <hex1> <hex2>    -> one archive object: str(hex1), load (outcome ignored), str(hex2), load -> as `load`
 //   crt / zrt <ty> <value>      -> cache_interface / session_interface store_data then fetch_data (serializable classes): "ok <value tokens>"
+//   zsv <ty> <value>            -> session store_data, save(), next request: load(), fetch_data: "ok <value>" | "toolong" (save_data limit)
 //   wr    <hex> <hex>...        -> write_chunk of each word; hex of the archive
 //   load+ rt+ sload+ srt+       -> the same, but the object loaded into is pre-populated with junk (load must replace it)
 //
@@ -30,6 +31,7 @@
 #include <cppcms/session_interface.h>
 #include <cppcms/session_pool.h>
 #include <cppcms/http_cookie.h>
+#include <cppcms/cppcms_error.h>
 #include <cppcms/json.h>
 #include <booster/refcounted.h>
 #include <sanitizer/asan_interface.h>
@@ -364,6 +366,7 @@ struct Ops {
 	std::string (*cache)(Tok &);
 	std::string (*session)(Tok &);
 	std::string (*load2)(std::string const &,std::string const &);
+	std::string (*session_saved)(Tok &);
 };
 
 template<typename T> std::string do_save(Tok &t)
@@ -525,16 +528,55 @@ template<typename T> std::string do_session(Tok &t)
 	return out;
 }
 
+// store_data, save(), then a second session object (the next request) presenting the cookie that was set:
+// load(), fetch_data.  Server-side memory storage, so the cookie only carries the session id.
+struct jar : public cppcms::session_interface_cookie_adapter {
+	std::map<std::string,std::string> c;
+	void set_cookie(cppcms::http::cookie const &ck) { if(ck.max_age()==0 && ck.value().empty()) c.erase(ck.name()); else c[ck.name()]=ck.value(); }
+	std::string get_session_cookie(std::string const &name) { std::map<std::string,std::string>::const_iterator p=c.find(name); return p==c.end() ? std::string() : p->second; }
+	std::set<std::string> get_cookie_names() { std::set<std::string> r; for(std::map<std::string,std::string>::const_iterator p=c.begin();p!=c.end();++p) r.insert(p->first); return r; }
+};
+template<typename T> std::string do_session_saved(Tok &t)
+{
+	T v=T(); parse(t,v);
+	static cppcms::session_pool *pool=0;
+	if(!pool) { pool=new cppcms::session_pool(the_service()); pool->init(); }
+	jar j;
+	{
+		cppcms::session_interface s(*pool,j);
+		s.load();
+		try { s.store_data("k",v); }
+		catch(cppcms::json::bad_value_cast const &) { return "throw"; }
+		try { s.save(); }
+		catch(cppcms::cppcms_error const &e) {
+			if(std::string(e.what()).find("value too long")!=std::string::npos) return "toolong";
+			throw;
+		}
+	}
+	std::string out;
+	cppcms::session_interface s2(*pool,j);
+	s2.load();
+	try {
+		T w=T();
+		if(prefill) Junk::j(w);
+		if(!s2.is_set("k")) return "lost";
+		s2.fetch_data("k",w);
+		out="ok"; dump(w,out);
+	}
+	catch(cppcms::archive_error const &e) { out=err_kind(e.what()); }
+	return out;
+}
+
 static std::map<std::string,Ops> registry;
 
 template<typename T> void reg()
 {
-	Ops o={ do_save<T>, do_load<T>, do_rt<T>, 0, 0, 0, 0, 0, do_load2<T> };
+	Ops o={ do_save<T>, do_load<T>, do_rt<T>, 0, 0, 0, 0, 0, do_load2<T>, 0 };
 	registry[TN<T>::name()]=o;
 }
 template<typename T> void regs()
 {
-	Ops o={ do_save<T>, do_load<T>, do_rt<T>, do_ssave<T>, do_sload<T>, do_srt<T>, do_cache<T>, do_session<T>, do_load2<T> };
+	Ops o={ do_save<T>, do_load<T>, do_rt<T>, do_ssave<T>, do_sload<T>, do_srt<T>, do_cache<T>, do_session<T>, do_load2<T>, do_session_saved<T> };
 	registry[TN<T>::name()]=o;
 }
 
@@ -636,6 +678,7 @@ static std::string run(std::vector<std::string> const &w)
 	if(o2=="srt") return o.srt ? o.srt(t) : "bad-op";
 	if(o2=="crt") return o.cache ? o.cache(t) : "bad-op";        // cache_interface::store_data / fetch_data
 	if(o2=="zrt") return o.session ? o.session(t) : "bad-op";    // session_interface::store_data / fetch_data
+	if(o2=="zsv") return o.session_saved ? o.session_saved(t) : "bad-op";   // ... with save() and a new request in between
 	if(o2=="load2") {
 		if(w.size()!=4) return "bad-op";
 		std::string first,bytes;
